@@ -60,6 +60,20 @@ LongPeerVector(grp, k) ==
        st([i \in 1..Len(P(grp)) |-> IF i = Len(P(grp)) THEN P(grp)[i] - 255 + y[1] ELSE P(grp)[i]] \o << >>, FALSE),   \* p - 255 + y: another residue, no expectation beyond no error
        st(<< 1 >> \o Zeros(Len(P(grp)) - 1) \o << 0 >>, FALSE) >>)  \* 2^(8n): only the excess octet is non-zero
 
+\* peer public values with ZERO OCTETS AT THEIR EDGES, as one honest peer in 256 sends them: the peer's exponent X is searched for
+\* (findexp: 2^X mod p ends in / begins with 0x00), the library computes its own pair from the replayed source and the shared secret
+\* from the peer's value; expected = (own public value)^X mod p, left padded -- through CalculateDiffieHellmanMaterials and GetSharedKey
+EdgeExp(grp, k) == [t |-> "findexp", m |-> Lit(P(grp)), g |-> 2, lz |-> IF k % 2 = 0 THEN 0 ELSE 1, tz |-> IF k % 2 = 0 THEN 1 ELSE 0,
+                    from |-> FillT("seeded", 24, Seed + 80 + k)]
+PeerEdgeVector(grp, k) ==
+  LET rnd == [mode |-> "det", seed |-> Seed + 90 + k] IN
+  VectorD("dh_peeredge", << [n |-> "X", t |-> EdgeExp(grp, k)], [n |-> "x", t |-> ExpClass(grp, 10)] >>,
+    << Step("dh_pub", "C09", FALSE, [grp |-> grp, x |-> Var("X", 0)], [panic |-> FALSE, pub |-> PubT(grp, Var("X", 0))]),
+       Step("dh_calc", "C09", FALSE, [grp |-> grp, peer |-> Ref(1, "pub"), rand |-> rnd],
+            [panic |-> FALSE, err |-> FALSE, shared |-> SharedT(grp, Var("X", 0), RefT(2, "pub", DhLen(grp)))]),
+       Step("dh_shared", "C09", FALSE, [grp |-> grp, x |-> Var("x", 0), peer |-> Ref(1, "pub")],
+            [panic |-> FALSE, shared |-> SharedT(grp, Var("X", 0), PubT(grp, Var("x", 0)))]) >>)
+
 \* the group as it is reached through a negotiated proposal (transform type 4, id 2 / 14 -> NewIKESAKey): the responder's public value
 \* has the group's length and its keys are those of the shared secret computed with the group's prime
 PropGroupVector(grp, k) ==
@@ -115,8 +129,9 @@ Next == \/ stage = 0 /\ stage' = 1 /\ g' \in {2, 14} /\ xi' \in 1..NExp /\ yi' =
         \/ stage = 0 /\ stage' = 2 /\ g' = 0 /\ xi' \in 0..31 /\ yi' = 0
         \/ stage = 0 /\ stage' = 2 /\ g' \in {2, 14} /\ xi' \in 100..103 /\ yi' = 0
         \/ stage = 0 /\ stage' = 2 /\ g' \in {2, 14} /\ xi' \in 200..202 /\ yi' = 0
+        \/ stage = 0 /\ stage' = 2 /\ g' \in {2, 14} /\ xi' \in 300..303 /\ yi' = 0
         \/ stage = 1 /\ stage' = 2 /\ yi' \in 1..NPeer /\ UNCHANGED << g, xi >>
         \/ stage = 2 /\ UNCHANGED << stage, g, xi, yi >>
-Emit == stage = 2 => PrintT(ToJson(IF g = 0 THEN RandVector(xi) ELSE IF xi >= 200 THEN PropGroupVector(g, xi - 200) ELSE IF xi >= 100 THEN LongPeerVector(g, xi - 100) ELSE PairVector(g, xi, yi)))
+Emit == stage = 2 => PrintT(ToJson(IF g = 0 THEN RandVector(xi) ELSE IF xi >= 300 THEN PeerEdgeVector(g, xi - 300) ELSE IF xi >= 200 THEN PropGroupVector(g, xi - 200) ELSE IF xi >= 100 THEN LongPeerVector(g, xi - 100) ELSE PairVector(g, xi, yi)))
 Sound == TRUE
 =============================================================================
